@@ -50,6 +50,8 @@ fn palette_forms() -> Vec<Result<String, Cell>> {
         Ok("(if #f #f)".into()),
         Ok("100000".into()),
         Ok("#t".into()),
+        Ok("(- 1/2 1/2)".into()),
+        Ok("(- (expt 2 64) (expt 2 64))".into()),
     ]
 }
 
